@@ -7,6 +7,7 @@ LEVEL = 'translation_validation'
 
 def run(rep):
     control.body_deductive(rep)
+    control.clause_deductive(rep)
     # distinct source variables stay distinct Python variables, every `_` gets its own (visitVARIABLE contract)
     from . import lexical
     lexical.visitor_deductive(rep, targets=('yp_prolog_visitor.YPPrologVisitor.visitVARIABLE',))
@@ -23,5 +24,8 @@ def run(rep):
     fw.standin(rep, 's_ctl.py', ['run', rep.seed, 500 if q else 8000],
                'control constructs in clauses with plain distinct head variables (no enclosing loop), nested in conditions and under negation',
                'systematic nested-condition trees + random F2 trees')
-    rep.notes.append('deductive part: compile_body (conjunction nesting = left-to-right depth-first search); clause-level functions '
-                     '(head unification order, aliasing, variable declarations) are covered by the bounded translation validation only')
+    rep.notes.append('deductive part: compile_body (conjunction nesting = left-to-right depth-first search); head arguments: exactly the '
+                     'once-occurring plain variables are aliased to argN (find_clause_head_variable_arguments against cnt), one alias assignment '
+                     'each in position order, the other positions are unified left to right with position 1 outermost and the body innermost '
+                     '(compile_arg_list_unification against wrap), terms become cexpr(term). The composition in compile_function_body (fresh '
+                     'variable declarations), the meaning of aliasing (L-ALIAS) and the emitted text are covered by the bounded stand-ins')
